@@ -4,6 +4,24 @@ from ..gen import scripts as S
 from .C06 import bline, sline, LEAF_DAG
 
 SPEC = dict(
+    manifest=dict(
+        category='proof',
+        text='Lean 4 theorems over the hand-written Builder/Slice model, for ALL builders, values and operation histories: every operation '
+             '(typed stores, store_cell, store_slice, store_snake_bytes) keeps the builder within 1023 bits / 4 refs whether it returns or raises '
+             'after a partial write, hence so does every finite history (c07_invariant, induction over the op list); end_cell succeeds exactly '
+             'when depth <= 1023 (c07_end_cell_depth, via the C01 constructor model); a typed store raises IF AND ONLY IF the value is out of '
+             'range for its width or its TL-B encoding does not fit the remaining bits/refs (c07_refuse_iff, both directions; '
+             'c07_refuse_iff_composite for store_cell/store_slice with the REMAINING refs of the slice); the primitive consuming reads return '
+             'exactly the next bits and advance by exactly that many, and raise leaving the slice unchanged when more is requested than remains '
+             '(c07_read_bounds); every typed read leaves a suffix of its input (c07_read_suffix). The model is tied to the working tree by '
+             'differential testing of builder histories at every fill level and of over-reads, each also checked on the library alone against an '
+             'independent fits/range predictor.',
+        level_note='Proved for all inputs: the statements above, about Model/Builder.lean. Only sampled: that the Python code behaves as the model '
+                   '(correspondence on generated histories/over-reads); the depth-1023/1024 boundary through the real builder is run concretely. '
+                   'Preconditions stated in the theorems: width 0 is outside the library domain (int2ba refuses it), anycast depth is checked '
+                   'against its 5-bit field (TL-B says <= 30), Address.hash_part is assumed to have 32 bytes. Non-consuming preload_* on an '
+                   'over-read return short data (outside the property, recorded in design/C07.md).',
+        technique='Lean 4 proof (hand model, invariant by induction over operation histories) + differential correspondence with the library'),
     design_ref='DESIGN.md §6 C07',
     rule='builder histories at every fill level (0,1,1015..1023 bits x 0..4 refs) mixing fitting, overflowing and out-of-range stores '
          '(ints, var-ints, bits, bytes, refs, maybe-refs, cells, partly consumed slices, addresses, snake strings); each op must succeed iff '
@@ -45,12 +63,13 @@ def rand_store(rng, ncells, dag):
         return rng.choice([f'u:{1 << n}:{n}', f'u:-1:{n}', f'i:{1 << (n - 1)}:{n}', f'i:{-(1 << (n - 1)) - 1}:{n}', f'u:0:0', 'i:0:0',
                            f'vu:{1 << 120}:4', 'vu:-1:4', f'vi:{1 << 119}:4', f'vi:{-(1 << 119) - 1}:4', f'c:{1 << 120}', 'c:-7',
                            f'a:e:512:1', f'a:e:3:8', 'a:s:128:' + '00' * 32, 'a:s:-129:' + '00' * 32, 'a:s:0:' + '00' * 32 + ':0:0',
-                           'a:s:0:' + '00' * 32 + ':3:8'])
+                           'a:s:0:' + '00' * 32 + ':3:8', 'a:e:0:5', 'a:e:0:1', 'a:e:0:0', 's:' + '61' * 128, 's:' + 'c3a9' * 64, 's:' + '61' * 127,
+                           'a:s:0:' + '00' * 32 + ':31:5', 'a:s:0:' + '00' * 32 + ':32:5'])
     if r < 0.65:
         n = rng.choice([1, 7, 8, 9, 100, 500, 1023])
         return rng.choice([f'b:{"1" * n}', f'by:{"ab" * (n // 8)}' if n >= 8 else 'bit:1'])
     if r < 0.8:
-        return rng.choice([f'r:{rng.randrange(ncells)}', f'mr:{rng.randrange(ncells)}', 'mr:-'])
+        return rng.choice([f'r:{rng.randrange(ncells)}', f'mr:{rng.randrange(ncells)}', 'mr:-', f'd:{rng.randrange(ncells)}', 'd:-'])
     if r < 0.9:
         return f'cell:{rng.randrange(ncells)}'
     k = rng.randrange(ncells)
